@@ -36,7 +36,10 @@ EXTENDS Serde
 
 (* ---- names ---- *)
 nX == <<120>>  nY == <<121>>  nA == <<97>>  nT == <<116>>  nC == <<99>>  nId == <<105, 100>>
-nNote == <<110, 111, 116, 101>>
+nNote == <<110, 111, 116, 101>>  nKind == <<107, 105, 110, 100>>  nSeq == <<115, 101, 113>>  nMarker == <<109, 97, 114, 107, 101, 114>>  nGhost == <<103, 104, 111, 115, 116>>
+nAck == <<97, 99, 107>>  nN == <<110>>  nB == <<98>>
+vPing == <<80, 105, 110, 103>>  vTick == <<84, 105, 99, 107>>  vPair == <<80, 97, 105, 114>>  vNum == <<78, 117, 109>>
+vLow == <<76, 111, 119>>  vMedium == <<77, 101, 100, 105, 117, 109>>  vHigh == <<72, 105, 103, 104>>  vUnknown == <<85, 110, 107, 110, 111, 119, 110>>
 nP == <<112>>  nE == <<101>>  nO == <<111>>  nD == <<100>>  nK == <<107>>
 vUnit == <<85, 110, 105, 116>>  vNew == <<78, 101, 119>>  vTup == <<84, 117, 112>>  vStr == <<83, 116, 114>>
 vOpt == <<79, 112, 116>>  vNil == <<78, 105, 108>>  vRed == <<82, 101, 100>>  vBlue == <<66, 108, 117, 101>>
@@ -89,6 +92,13 @@ Surplus(T, v) == Deny(T) /\ \E i \in DOMAIN v.o : \A j \in DOMAIN T.fs : T.fs[j]
 Fld(name, ty) == [f |-> name, ty |-> ty, def |-> FALSE]
 FldDefault(name, ty, img) == [f |-> name, ty |-> ty, def |-> TRUE, dimg |-> img]
 TEnum(vs) == [k |-> "enum", vs |-> vs]                       \* externally tagged (serde's default)
+TEnumOther(vs, o) == [k |-> "enum", vs |-> vs, other |-> o]  \* ... with a #[serde(other)] unit variant o: every name that is not a variant's is o
+TFlatS(fs) == [k |-> "struct", fs |-> fs, noseq |-> TRUE]    \* a struct with a #[serde(flatten)] struct inside: the fields of both, from an object only
+(* a null that serde has BUFFERED (internally tagged / untagged enums, flatten) and later reads as a unit: the buffer remembers which visit_*
+   call delivered it.  "unitc" is the unit type inside such a buffered value; bad = the deserializer delivered null through visit_none
+   (negative control NC_NULL_AS_NONE), which a unit then refuses *)
+TUnitC(bad, emap) == [k |-> "unitc", bad |-> bad, emap |-> emap, eseq |-> FALSE]
+TUnitStructC == [k |-> "unitc", bad |-> FALSE, emap |-> TRUE, eseq |-> TRUE]      \* a unit STRUCT in such a buffer: an empty sequence is taken for it as well      \* emap: the reader of the buffer takes an empty map for a unit too (ContentDeserializer does, ContentRefDeserializer -- untagged enums -- does not)
 VUnit(n) == [name |-> n, kind |-> "unit"]
 VNew(n, x) == [name |-> n, kind |-> "newtype", x |-> x]
 VTup(n, xs) == [name |-> n, kind |-> "tuple", xs |-> xs]
@@ -99,6 +109,7 @@ TUntagged(vs) == [k |-> "untagged", vs |-> vs]
 TFlat(fs, x) == [k |-> "flat", fs |-> fs, x |-> x]           \* named fields + #[serde(flatten)] BTreeMap<String, x>
 TFirstEntry(x) == [k |-> "firstentry", x |-> x]              \* a hand-written visitor that reads ONE entry (String, x) of a map
 
+HasOther(T) == "other" \in DOMAIN T
 VariantNamed(vs, n) == IF \E i \in DOMAIN vs : vs[i].name = n THEN vs[CHOOSE i \in DOMAIN vs : vs[i].name = n] ELSE [kind |-> "none"]
 
 (***************************************************************************)
@@ -137,6 +148,7 @@ Dec(T, v) ==
     [] T.k = "char" -> IF v.t = "str" /\ Len(v.s) = 1 THEN Ok(v) ELSE Err
     [] T.k = "string" -> IF v.t = "str" THEN Ok(v) ELSE Err
     [] T.k = "unit" -> IF v.t = "null" THEN Ok(JNull) ELSE Err
+    [] T.k = "unitc" -> IF (v.t = "null" /\ ~T.bad) \/ (T.emap /\ v.t = "obj" /\ v.o = <<>>) \/ (T.eseq /\ v.t = "arr" /\ v.a = <<>>) THEN Ok(JNull) ELSE Err
     [] T.k = "option" -> IF v.t = "null" THEN Ok(JNull) ELSE Dec(T.x, v)
     [] T.k = "newtype" -> Dec(T.x, v)
     [] T.k = "seq" -> IF v.t = "arr" THEN Gather([i \in DOMAIN v.a |-> Dec(T.x, v.a[i])], LAMBDA imgs : JArr(imgs)) ELSE Err
@@ -145,11 +157,14 @@ Dec(T, v) ==
                       ELSE Gather([i \in DOMAIN v.o |-> IF IsOk(Dec(T.key, JStr(v.o[i].k))) THEN Dec(T.x, v.o[i].v) ELSE Err],
                                   LAMBDA imgs : JObj([i \in DOMAIN v.o |-> JMem(v.o[i].k, imgs[i])]))
     [] T.k = "struct" -> IF v.t = "obj" THEN (IF Surplus(T, v) THEN Err ELSE FieldsFromObj(T.fs, v))
-                         ELSE IF v.t = "arr" THEN FieldsFromArr(T.fs, v.a) ELSE Err
+                         ELSE IF v.t = "arr" /\ "noseq" \notin DOMAIN T THEN FieldsFromArr(T.fs, v.a) ELSE Err
     [] T.k = "enum" ->
-         IF v.t = "str" THEN (IF VariantNamed(T.vs, v.s).kind = "unit" THEN Ok(v) ELSE Err)     \* a bare name is a unit variant only
+         IF v.t = "str" THEN (IF VariantNamed(T.vs, v.s).kind = "unit" THEN Ok(v)                \* a bare name is a unit variant only
+                              ELSE IF VariantNamed(T.vs, v.s).kind = "none" /\ HasOther(T) THEN Ok(JStr(T.other)) ELSE Err)
          ELSE IF v.t = "obj" /\ Len(v.o) = 1
-              THEN LET n == v.o[1].k IN VariantContent(VariantNamed(T.vs, n), v.o[1].v, LAMBDA img : Single(n, img), JStr(n))
+              THEN LET n == v.o[1].k  var == VariantNamed(T.vs, n) IN
+                   IF var.kind = "none" /\ HasOther(T) THEN (IF v.o[1].v.t = "null" THEN Ok(JStr(T.other)) ELSE Err)
+                   ELSE VariantContent(var, v.o[1].v, LAMBDA img : Single(n, img), JStr(n))
               ELSE Err
     [] T.k = "itag" ->                                                                        \* {"t": NAME, ...the variant's fields}
          IF v.t # "obj" THEN (IF v.t = "arr" THEN Open ELSE Err)
@@ -221,34 +236,61 @@ VariantL1(var, has, c, D, Wrap(_), unitimg) ==
          IF has /\ c.t = "obj" THEN Then(MapChecked([used |-> Len(c.o), res |-> VisitMapFields(var.fs, c, D)], Len(c.o), D), Wrap) ELSE Err
     [] OTHER -> Err
 
+(* the variant a name stands for: the visitor of the variant identifier decides (a #[serde(other)] variant takes every unknown name);
+   NC_ENUM_CHECKS_VARIANTS: deserialize_enum itself refuses a name that is not in the VARIANTS list it was handed (which lacks nothing
+   but does not say that unknown names are welcome) *)
+NamedL1(T, n, D) ==
+  LET var == VariantNamed(T.vs, n) IN
+  IF var.kind # "none" THEN var
+  ELSE IF HasOther(T) /\ "NC_ENUM_CHECKS_VARIANTS" \notin D THEN [name |-> T.other, kind |-> "unit"] ELSE [name |-> n, kind |-> "none"]
+(* the types inside a value that serde buffers before decoding it: units become "unitc" *)
+RECURSIVE MapUnits(_, _)
+MapFs(fs, bad) == [i \in DOMAIN fs |-> [fs[i] EXCEPT !.ty = MapUnits(fs[i].ty, bad)]]
+MapVs(vs, bad) == [i \in DOMAIN vs |-> CASE vs[i].kind = "newtype" -> [vs[i] EXCEPT !.x = MapUnits(vs[i].x, bad)]
+                                          [] vs[i].kind = "tuple" -> [vs[i] EXCEPT !.xs = [j \in DOMAIN vs[i].xs |-> MapUnits(vs[i].xs[j], bad)]]
+                                          [] vs[i].kind = "struct" -> [vs[i] EXCEPT !.fs = MapFs(vs[i].fs, bad)]
+                                          [] OTHER -> vs[i]]
+MapUnits(T, bad) ==
+  CASE T.k = "unit" -> TUnitC(bad, TRUE)
+    [] T.k = "unitc" -> [T EXCEPT !.bad = bad]
+    [] T.k \in {"option", "newtype", "seq", "firstentry"} -> [T EXCEPT !.x = MapUnits(T.x, bad)]
+    [] T.k = "tuple" -> [T EXCEPT !.xs = [i \in DOMAIN T.xs |-> MapUnits(T.xs[i], bad)]]
+    [] T.k = "map" -> [T EXCEPT !.x = MapUnits(T.x, bad)]
+    [] T.k = "struct" -> [T EXCEPT !.fs = MapFs(T.fs, bad)]
+    [] T.k \in {"enum", "itag", "atag", "untagged"} -> [T EXCEPT !.vs = MapVs(T.vs, bad)]
+    [] T.k = "flat" -> [T EXCEPT !.fs = MapFs(T.fs, bad), !.x = MapUnits(T.x, bad)]
+    [] OTHER -> T
+Buffered(T, D) == MapUnits(T, "NC_NULL_AS_NONE" \in D)
+
 DecL1(T, v, D) ==
   CASE T.k = "option" -> IF v.t = "null" THEN Ok(JNull) ELSE DecL1(T.x, v, D)            \* deserialize_option: visit_none / visit_some(self)
     [] T.k = "newtype" -> DecL1(T.x, v, D)                                              \* deserialize_newtype_struct: visit_newtype_struct(self)
     [] T.k = "enum" ->                                                                  \* deserialize_enum (:690-733), EnumDeserializer
          IF v.t = "obj"
          THEN IF Len(v.o) # 1 THEN Err                                                  \* "map with a single key"
-              ELSE LET n == v.o[1].k IN VariantL1(VariantNamed(T.vs, n), TRUE, v.o[1].v, D, LAMBDA img : Single(n, img), JStr(n))
-         ELSE IF v.t = "str" THEN VariantL1(VariantNamed(T.vs, v.s), FALSE, JNull, D, LAMBDA img : Single(v.s, img), v)
+              ELSE LET n == v.o[1].k  var == NamedL1(T, n, D) IN VariantL1(var, TRUE, v.o[1].v, D, LAMBDA img : Single(n, img), JStr(var.name))
+         ELSE IF v.t = "str" THEN LET var == NamedL1(T, v.s, D) IN VariantL1(var, FALSE, JNull, D, LAMBDA img : Single(v.s, img), JStr(var.name))
          ELSE Err
     [] OTHER -> AnyL1(T, v, D)
 
 (* everything else is forwarded to deserialize_any (:635-674): the visit_* call follows the VALUE, the visitor of T takes it or not *)
 AnyL1(T, v, D) ==
-       CASE v.t = "null" -> IF T.k = "unit" THEN Ok(JNull) ELSE IF T.k = "untagged" THEN Dec(T, v) ELSE Err        \* visit_unit
-         [] v.t = "bool" -> IF T.k = "bool" THEN Ok(v) ELSE IF T.k = "untagged" THEN Dec(T, v) ELSE Err             \* visit_bool
+       CASE v.t = "null" -> IF T.k = "unit" THEN Ok(JNull) ELSE IF T.k = "untagged" THEN Dec(Buffered(T, D), v) ELSE Err        \* visit_unit
+         [] v.t = "bool" -> IF T.k = "bool" THEN Ok(v) ELSE IF T.k = "untagged" THEN Dec(Buffered(T, D), v) ELSE Err             \* visit_bool
          [] v.t = "num" ->                                                               \* Number::deserialize_any: visit_u64 / visit_i64 / visit_f64
               (CASE T.k = "int" -> IF IsIntV(v) /\ InRange(v.int, T.w) THEN Ok(v) ELSE Err
                  [] T.k = "f64" -> AsF64(v)
-                 [] T.k = "untagged" -> Dec(T, v)
+                 [] T.k = "untagged" -> Dec(Buffered(T, D), v)
                  [] OTHER -> Err)
          [] v.t = "str" ->                                                               \* visit_string
               (CASE T.k = "string" -> Ok(v)
                  [] T.k = "char" -> IF Len(v.s) = 1 THEN Ok(v) ELSE Err
-                 [] T.k = "untagged" -> Dec(T, v)
+                 [] T.k = "untagged" -> Dec(Buffered(T, D), v)
                  [] OTHER -> Err)
          [] v.t = "arr" ->                                                               \* visit_seq on a SeqDeserializer, then the length check
               (CASE T.k = "seq" -> Gather([i \in DOMAIN v.a |-> DecL1(T.x, v.a[i], D)], LAMBDA imgs : JArr(imgs))
                 [] T.k = "tuple" -> SeqChecked(VisitSeqPositional(Len(T.xs), LAMBDA i : T.xs[i], LAMBDA i : Err, v.a, D, LAMBDA imgs : JArr(imgs)), Len(v.a), D)
+                [] T.k = "struct" /\ "noseq" \in DOMAIN T -> Err                     \* deserialize_map: the visitor of a struct with a flattened member has no visit_seq
                 [] T.k = "struct" -> SeqChecked(VisitSeqPositional(Len(T.fs), LAMBDA i : T.fs[i].ty, LAMBDA i : IF T.fs[i].def THEN Ok(T.fs[i].dimg) ELSE Err, v.a, D,
                                                                    LAMBDA imgs : MkObj([i \in DOMAIN T.fs |-> JMem(T.fs[i].f, imgs[i])])), Len(v.a), D)
                 [] T.k \in {"itag", "atag", "untagged"} -> Open
@@ -257,6 +299,7 @@ AnyL1(T, v, D) ==
               CASE T.k = "map" ->                                                        \* keys as Variable::String (:929), values as they are
                      Gather([i \in DOMAIN v.o |-> IF IsOk(DecL1(T.key, JStr(v.o[i].k), D)) THEN DecL1(T.x, v.o[i].v, D) ELSE Err],
                             LAMBDA imgs : JObj([i \in DOMAIN v.o |-> JMem(v.o[i].k, imgs[i])]))
+                [] T.k = "struct" /\ "noseq" \in DOMAIN T -> Dec(Buffered(T, D), v)    \* every entry is buffered, the inner struct reads the buffer
                 [] T.k = "struct" -> IF Surplus(T, v) THEN Err ELSE VisitMapFields(T.fs, v, D)     \* the derived field visitor refuses the key
                 [] T.k = "firstentry" ->                                                 \* the visitor reads one entry and returns
                      IF Len(v.o) = 0 THEN Err
@@ -265,7 +308,7 @@ AnyL1(T, v, D) ==
                      IF ~ObjHas(v, T.tag) THEN Err                                       \* everything else buffered and read by serde itself
                      ELSE LET var == IdentL1(T.vs, ObjGet(v, T.tag), D) IN
                           (CASE var.kind = "unit" -> Ok(Single(T.tag, JStr(var.name)))
-                             [] var.kind = "struct" -> Then(FieldsFromObj(var.fs, WithoutMember(v, T.tag)), LAMBDA img : WithMember(img, T.tag, JStr(var.name)))
+                             [] var.kind = "struct" -> Then(FieldsFromObj(MapFs(var.fs, "NC_NULL_AS_NONE" \in D), WithoutMember(v, T.tag)), LAMBDA img : WithMember(img, T.tag, JStr(var.name)))
                              [] OTHER -> Err)
                 [] T.k = "atag" ->
                      IF ~ObjHas(v, T.tag) THEN Err
@@ -274,8 +317,8 @@ AnyL1(T, v, D) ==
                           ELSE LET tagged == Single(T.tag, JStr(var.name)) IN
                                IF ~ObjHas(v, T.c) THEN (IF var.kind = "unit" THEN Ok(tagged) ELSE Err)
                                ELSE IF var.kind = "struct" /\ ObjGet(v, T.c).t = "arr" THEN Open
-                               ELSE VariantContent(var, ObjGet(v, T.c), LAMBDA img : WithMember(tagged, T.c, img), tagged)
-                [] T.k \in {"untagged", "flat"} -> Dec(T, v)                             \* the whole value is buffered (every entry read) and decoded by serde
+                               ELSE VariantContent(MapVs(<<var>>, "NC_NULL_AS_NONE" \in D)[1], ObjGet(v, T.c), LAMBDA img : WithMember(tagged, T.c, img), tagged)
+                [] T.k \in {"untagged", "flat"} -> Dec(Buffered(T, D), v)                             \* the whole value is buffered (every entry read) and decoded by serde
                 [] OTHER -> Err
 
 (***************************************************************************)
@@ -285,6 +328,11 @@ I32 == TInt("i32")
 Point == TStruct(<<Fld(nX, I32), Fld(nY, I32)>>)
 EType == TEnum(<<VUnit(vUnit), VNew(vNew, I32), VTup(vTup, <<I32, TString>>), VStruct(vStr, <<Fld(nA, TBool)>>), VNew(vOpt, TOpt(I32)), VNew(vNil, TUnit)>>)
 UserId == TNew(TString)
+UC == TUnitC(FALSE, TRUE)    \* a unit inside a type whose value serde buffers: Level 0 says what the buffer reads as a unit (null, and an empty map)
+ITU == TITag(nKind, <<VStruct(vPing, <<Fld(nSeq, TInt("u32")), Fld(nMarker, TUnitStructC)>>), VStruct(vTick, <<Fld(nGhost, UC)>>)>>)
+UTU == TUntagged(<<VStruct(vPair, <<Fld(nA, TUnitC(FALSE, FALSE)), Fld(nB, TBool)>>), VNew(vNum, TInt("i64"))>>)
+FlatU == TFlatS(<<Fld(nId, I32), Fld(nAck, UC), Fld(nN, I32)>>)
+Level == TEnumOther(<<VUnit(vLow), VUnit(vMedium), VNew(vHigh, TInt("u8"))>>, vUnknown)
 Strict == TStructDeny(<<Fld(nId, I32), FldDefault(nNote, TOpt(TString), JNull)>>)
 Color == TEnum(<<VUnit(vRed), VUnit(vBlue)>>)
 IT == TITag(nT, <<VStruct(vA, <<Fld(nX, I32)>>), VUnit(vB)>>)
@@ -299,7 +347,7 @@ Zoo == [ bool |-> TBool, i8 |-> TInt("i8"), u8 |-> TInt("u8"), i32 |-> I32, i64 
          MapColorI32 |-> TMap(Color, I32), Flat |-> TFlat(<<Fld(nId, I32)>>, I32), VecUserId |-> TSeq(UserId), ArrI32x2 |-> TTup(<<I32, I32>>),
          BoxPoint |-> TNew(Point), TupUserIdI32 |-> TTup(<<UserId, I32>>), MapStringOptPoint |-> TMap(TString, TOpt(Point)),
          IT |-> IT, AT |-> AT, UT |-> UT, FirstEntry |-> TFirstEntry(I32), VecIT |-> TSeq(IT),
-         Strict |-> Strict, VecStrict |-> TSeq(Strict) ]
+         Strict |-> Strict, VecStrict |-> TSeq(Strict), ITU |-> ITU, UTU |-> UTU, FlatU |-> FlatU, Level |-> Level, VecLevel |-> TSeq(Level) ]
 ZooNames == DOMAIN Zoo
 
 (***************************************************************************)
@@ -322,7 +370,7 @@ Wit(T) ==
     [] T.k = "f64" -> {JNum(3, 2), N("3"), JNum(3, 1)}
     [] T.k = "char" -> {JStr(<<97>>), JStr(<<233>>)}
     [] T.k = "string" -> {JStr(<<>>), JStr(<<97, 98>>)}
-    [] T.k = "unit" -> {JNull}
+    [] T.k \in {"unit", "unitc"} -> {JNull}
     [] T.k = "option" -> {JNull} \cup Wit(T.x)
     [] T.k = "newtype" -> Wit(T.x)
     [] T.k = "seq" -> {JArr(<<>>)} \cup {JArr(<<w>>) : w \in Wit(T.x)} \cup {JArr(<<FirstWit(T.x), FirstWit(T.x)>>)}
@@ -332,6 +380,7 @@ Wit(T) ==
                       IN {JObj(<<>>), JObj(<<JMem(ks[1], w)>>), MkObj(<<JMem(ks[1], w), JMem(ks[2], w)>>)}
     [] T.k = "struct" -> {ObjOfFields(T.fs), JArr(FieldsWit(T.fs))}
     [] T.k = "enum" -> UNION {VariantWit(T.vs[i]) : i \in DOMAIN T.vs}
+                       \cup (IF HasOther(T) THEN {JStr(<<88, 120>>), Single(<<88, 120>>, JNull), Single(<<88, 120>>, N("1")), JStr(T.other)} ELSE {})
     [] T.k = "itag" -> {IF T.vs[i].kind = "struct" THEN WithMember(ObjOfFields(T.vs[i].fs), T.tag, JStr(T.vs[i].name)) ELSE Single(T.tag, JStr(T.vs[i].name)) : i \in DOMAIN T.vs}
                        \cup {Single(T.tag, N(ToString(i - 1))) : i \in DOMAIN T.vs}
     [] T.k = "atag" -> {CASE T.vs[i].kind = "struct" -> MkObj(<<JMem(T.tag, JStr(T.vs[i].name)), JMem(T.c, ObjOfFields(T.vs[i].fs))>>)
